@@ -1,7 +1,7 @@
 #!/bin/sh
 # confirm_seed.sh <PID> <seed dir from the agent> : confirm each mutant (suite passes, demo fails with patch, passes without)
 # and file it under /verif/seeded/<PID><name>/.  Uses a scratch worktree that is removed afterwards.
-pid=$1; sd=$2
+pid=$1; sd=$2; map=${3:-ab}   # map: names under which mutants a and b are filed (e.g. "cd" for a second round)
 wt=/tmp/cs-$pid
 git -C /repo worktree remove --force $wt 2>/dev/null
 git -C /repo worktree add -q --detach $wt HEAD || exit 2
@@ -16,18 +16,20 @@ for m in a b; do
   rm tests/seed_demo_$m.rs
   suite=$(cargo test --workspace --no-fail-fast --offline 2>&1 | grep -E "^test result" | awk '{p+=$4; f+=$6} END {print p" passed "f" failed"}')
   echo "$pid$m: clean-demo=[$res_clean] mutant-demo=[$res_demo] suite=[$suite]"
-  out=/verif/seeded/$pid$m
+  case $m in a) mm=$(echo $map | cut -c1);; b) mm=$(echo $map | cut -c2);; esac
+  out=/verif/seeded/$pid$mm
   mkdir -p $out
   cp $sd/${m}_patch.diff $out/patch.diff; cp $sd/${m}_demo.rs $out/demo.rs
-  python3 - "$pid" "$m" "$sd/meta.json" "$out/meta.json" "$res_clean" "$res_demo" "$suite" <<'PY'
+  python3 - "$pid" "$m:$mm" "$sd/meta.json" "$out/meta.json" "$res_clean" "$res_demo" "$suite" <<'PY'
 import json,sys
 pid,m,src,dst,rc,rd,su=sys.argv[1:8]
+m,filed=m.split(":")
 try:
     meta=json.load(open(src)); mm=[x for x in meta.get("mutants",[]) if x.get("name")==m]
     mm=mm[0] if mm else {}
 except Exception as e:
     mm={}
-json.dump({"property":pid,"name":pid+m,"summary":mm.get("summary"),"needs":mm.get("needs"),
+json.dump({"property":pid,"name":pid+filed,"summary":mm.get("summary"),"needs":mm.get("needs"),
  "confirmed":{"demo_on_clean_tree":rc,"demo_with_patch":rd,"existing_suite_with_patch":su,
  "how":"scratch worktree of /repo HEAD; cargo test --offline --test seed_demo_%s before/after git apply; cargo test --workspace --no-fail-fast --offline with the patch"%m}},open(dst,"w"),indent=1)
 PY
